@@ -3,7 +3,7 @@ import sqlite3
 from hypothesis import strategies as st
 
 from vf import findings, hyp
-from vf.gens import model
+from vf.gens import model, c06_shapes
 from vf.oracles import engine
 from vf.props.c02 import site_of
 
@@ -13,17 +13,32 @@ RULE = ('cases = (statement text from the typed SQL model over schema t1..t4, ta
         'sqlite, the rank of || being engine-specific); the original text and the '
         'rendering of its parsed tree are executed on two identical sqlite3 databases and compared (rows order-aware '
         'for queries, full table contents for DML/DDL); non-trivial = the query returns >= 1 row or the DML changes '
-        'a table; distinct by (target, statement text, data)')
+        'a table; distinct by (target, statement text, data).  Second stream (vf/gens/c06_shapes.py): dedicated shapes '
+        'for operand typing and naming done by the renderer ("+" next to a string-typed operand, boolean-typed operands '
+        'of AND/OR/NOT/ON/HAVING, "->", un-aliased columns whose added label is the name of an ORDER BY column, EXISTS '
+        'aliases, CREATE TABLE IF NOT EXISTS over an existing table, names anon_N, exponent notation) and two spellings '
+        'SQLite does not read, judged against the equivalent SQLite spelling (WITH in front of a parenthesised set '
+        'operation = the same without the parentheses; OFFSET n without LIMIT = LIMIT -1 OFFSET n).  Third, exhaustive: '
+        'x OP1 y OP2 z without parentheses for every ordered pair of operators, target sqlite (operator rank is '
+        'engine-specific), over all pairs of column values')
 ASSUMPTIONS = ['sqlite3 (SQLite 3.40) is the reference engine; mysql/postgresql output is judged only when SQLite can '
                'execute it', 'the statement is parsed with the mindsdb dialect; parsing itself is not judged here',
-               'MSSQL / Oracle output cannot be executed here']
+               'MSSQL / Oracle output cannot be executed here',
+               'the meaning of a type name (CAST(x AS STRING) is numeric in SQLite), of a double-quoted name and of a '
+               'backslash in a string constant is engine-specific: not judged']
 FLOORS = {'quick': {'__nontrivial__': 400, 'target:sqlite': 800, 'kind:select': 1200, 'kind:dml': 300,
                     'tag:join:FULL OUTER JOIN': 150, 'tag:join:LEFT OUTER JOIN': 150, 'tag:join:LEFT JOIN': 150,
                     'tag:order': 600, 'tag:limit': 300, 'tag:group': 400, 'tag:window': 200, 'tag:distinct': 400,
                     'tag:sub:from': 500, 'tag:cte': 150, 'tag:setop:UNION': 50, 'tag:dml:update': 60,
-                    'tag:dml:insert': 80, 'tag:dml:delete': 30, 'tag:dml:create': 30},
+                    'tag:dml:insert': 80, 'tag:dml:delete': 30, 'tag:dml:create': 30,
+                    'tag:rank': 300, 'tag:rank:has-concat': 30, 'tag:rank:eq-then-predicate': 15, 'tag:rank:cmp-chain': 5,
+                    'tag:op:plus-text-operand': 40, 'tag:bool-typed-operand': 40, 'tag:op:json-arrow': 8,
+                    'tag:order:names-column-spelled-like-added-label': 15, 'tag:alias:exists': 8,
+                    'tag:dml:create-if-not-exists:table-exists': 8, 'tag:cte:on-parenthesised-setop': 5,
+                    'tag:offset:without-limit': 15, 'tag:name:anon_N-in-statement': 15, 'tag:const:exponent': 12},
           'thorough': {'__nontrivial__': 5000, 'kind:select': 15000, 'kind:dml': 3500}}
 N = {'quick': 300, 'thorough': 4000}
+N_SHAPES = {'quick': 100, 'thorough': 1200}
 TARGETS = ['sqlite', 'sqlite', 'mysql', 'postgresql']
 CFG = model.Cfg(places={}, always_alias=True, order_by_source=True)
 CFG2 = model.Cfg(places={}, always_alias=False, order_by_source=True)
@@ -61,7 +76,11 @@ def judge(case, col):
         col.excluded('ground truth not executable: ' + str(e)[:40])
         return []
     out = []
-    stmts = sql if isinstance(sql, list) else [sql]
+    # 'sql_parsed': the statement as it is given to the parser, when SQLite reads only another spelling of it
+    #  (case['sql']): parentheses around a set operation after WITH, OFFSET without LIMIT
+    stmts = case.get('sql_parsed') or sql
+    stmts = stmts if isinstance(stmts, list) else [stmts]
+    text = str(case.get('sql_parsed') or sql)
     rendered = []
     try:
         for stmt in stmts:
@@ -84,7 +103,8 @@ def judge(case, col):
     except sqlite3.Error as e:
         if target == 'sqlite':
             out.append(findings.record('rendered-not-executable', 'sqlite', tags, cfg,
-                                       f'{e}; rendered: {rendered}', str(sql)))
+                                       f'{e}; rendered: {rendered}', text))
+            col.case((target, str(sql), str(case.get('sql_parsed')), str(data)), False, classes + ['not-executable:sqlite'])
         else:
             col.excluded(f'{target} output not executable in sqlite')
             col.case((target, str(sql)), False, classes + ['not-executable:' + target])
@@ -102,7 +122,7 @@ def judge(case, col):
                 if ka != kb:
                     d = f'sort keys differ: {ka[:6]} vs {kb[:6]}'
         if d:
-            out.append(findings.record('rows-differ', target, tags, cfg, f'{d}; rendered: {rendered[0]!r}', sql))
+            out.append(findings.record('rows-differ', target, tags, cfg, f'{d}; rendered: {rendered[0]!r}', text))
         nontrivial = len(truth) >= 1
     else:
         before = engine.dump_all(engine.connect(tables), tables)
@@ -112,18 +132,18 @@ def judge(case, col):
             bad = [k for k in names if da.get(k) != db.get(k)]
             out.append(findings.record('tables-differ', target, tags, cfg,
                                        f'table {bad[0]}: {da.get(bad[0])} vs {db.get(bad[0])}; rendered: {rendered}',
-                                       str(sql)))
+                                       text))
         for t in case.get('new_tables', []):
             try:
                 ia = A.execute(f'PRAGMA table_info("{t}")').fetchall()
                 ib = B.execute(f'PRAGMA table_info("{t}")').fetchall()
                 norm = lambda rows: [(r[1].lower(), r[5] > 0) for r in rows]
                 if norm(ia) != norm(ib):
-                    out.append(findings.record('schema-differs', target, tags, cfg, f'{ia} vs {ib}; {rendered}', str(sql)))
+                    out.append(findings.record('schema-differs', target, tags, cfg, f'{ia} vs {ib}; {rendered}', text))
             except sqlite3.Error:
                 pass
         nontrivial = any(da.get(k) != before.get(k) for k in names)
-    col.case((target, str(sql), str(data)), nontrivial, classes,
+    col.case((target, str(sql), str(case.get('sql_parsed')), str(data)), nontrivial, classes,
              {'target': target, 'sql': sql, 'rendered': rendered, 'rows': len(truth) if truth is not None else None})
     return out
 
@@ -208,5 +228,26 @@ def cases(draw):
     return c
 
 
+@st.composite
+def shape_cases(draw):
+    c = draw(c06_shapes.shapes())
+    tags = set(c['meta']['tags'])
+    if tags & {'offset:without-limit', 'op:json-arrow'}:
+        c['target'] = 'sqlite'      # LIMIT -1 / '->' are SQLite's own spellings
+    else:
+        c['target'] = draw(st.sampled_from(TARGETS))
+    return c
+
+
 def run_shard(col, k, nshards, tier, seed):
-    hyp.explore(col, cases(), judge, N[tier], seed, shrink_key=lambda r: (r['kind'], r['site'][:40]))
+    key = lambda r: (r['kind'], r['site'][:40])
+    hyp.explore(col, cases(), judge, N[tier], seed, shrink_key=key)
+    hyp.explore(col, shape_cases(), judge, N_SHAPES[tier], seed + 1, shrink_key=key)
+    for i, c in enumerate(c06_shapes.rank_cases()):
+        if i % nshards == k:
+            for rec in judge(c, col):
+                col.fail(rec, c)
+    if k == 0:
+        col.exhaustive_parts.append('operator rank: x OP1 y OP2 z without parentheses for every ordered pair of %d binary '
+                                    'operators (two operand fillings) and NOT / unary minus before each, over all pairs '
+                                    'of column values, target sqlite' % len(c06_shapes.BINARY))
